@@ -220,11 +220,11 @@ class FA:
         """Decompose a branch test taken with the given polarity into literals (text, polarity).  A conjunction
         taken true / a disjunction taken false splits into its parts; anything else stays one literal."""
         t = test
-        if isinstance(t, ast.Name):
+        if isinstance(t, ast.Name) and not getattr(t, "_no_expand", False):
             # a boolean local: open it up (`missing = k not in d` ... `if missing:`)
             try:
                 e = self.expand(t, node_id)
-            except AnalysisError:
+            except (AnalysisError, RecursionError):
                 e = t
             if not isinstance(e, ast.Name) and isinstance(e, (ast.Compare, ast.BoolOp, ast.UnaryOp)):
                 for x_ in ast.walk(e):
@@ -250,10 +250,10 @@ class FA:
         if _os.environ.get("FA_SPLIT", "1") == "0" or _depth > 6:
             return [self._atoms(test, node_id, positive)]
         t = test
-        if isinstance(t, ast.Name):
+        if isinstance(t, ast.Name) and not getattr(t, "_no_expand", False):
             try:
                 e = self.expand(t, node_id)
-            except AnalysisError:
+            except (AnalysisError, RecursionError):
                 e = t
             if not isinstance(e, ast.Name) and isinstance(e, (ast.Compare, ast.BoolOp, ast.UnaryOp, ast.IfExp)):
                 for x_ in ast.walk(e):
